@@ -12,7 +12,7 @@ FLAG_INV = {
     "stop_at_max": "StopAtMax", "beyond_max_resource": "StopAtMax", "quantile_rule": "ContinueIffQuantile",
     "pause_at_milestone": "PauseExactlyAtMilestone", "decide_off_milestone": "PauseExactlyAtMilestone",
     "beyond_cap": "NeverBeyondCap", "cap_beyond_max": "NeverBeyondCap", "cap_without_pasha": "NeverBeyondCap",
-    "cap_not_monotone": "CapMonotone", "promote_ineligible": "PromoteOnlyEligible", "promoted_twice": "PromoteOnlyEligible",
+    "cap_not_monotone": "CapMonotone", "cap_skips_level": "CapMonotone", "promote_ineligible": "PromoteOnlyEligible", "promoted_twice": "PromoteOnlyEligible",
     "promote_not_in_rung": "PromoteOnlyEligible", "promote_not_paused": "PromoteOnlyEligible",
     "not_highest_rung": "PromoteBestOfHighest", "wrong_next_milestone": "RunToNextRung",
     "wrong_max_resource_attr": "RunToNextRung", "wrong_first_milestone": "RunToNextRung",
